@@ -68,6 +68,7 @@ def cstr(s):
 
 
 def tokens_inc(src, checks=''):
+    assert len(tokenize(src)) < 320, 'skeleton too long for the token feeder'
     body = ''.join('\tpush(%s, %s, %d);\n' % (k, cstr(l) if l is not None else '0', ln) for k, l, ln in tokenize(src))
     return 'static void feed_tokens(void) {\n%s}\nstatic void checks(void) {\n%s}\n' % (body, checks)
 
